@@ -2092,7 +2092,16 @@ func (c *Compiler) makeIdentityRef(
 
 	idents := c.getIdentities(cfgNode, base, node, parentStatus)
 	if hasDef {
-		def = c.identityDefault(cfgNode, node, def)
+		// A default that the leaf carries itself may have been put there
+		// by a refine: its prefixes are those of the file it is written in
+		at := node
+		if cfgNode != nil {
+			if d := cfgNode.ChildByType(parse.NodeDefault); d != nil &&
+				d.Root() != nil && d.Argument().String() == def {
+				at = d
+			}
+		}
+		def = c.identityDefault(cfgNode, at, def)
 	}
 	def, hasDef = c.getDefault(base, def, hasDef)
 
